@@ -30,6 +30,7 @@ void log_info(const char *f, ...) { (void)f; }
 void log_peer_err(const struct peer *p, const char *fmt, ...) { (void)p; (void)fmt; }
 void log_peer_info(const struct peer *p, const char *fmt, ...) { (void)p; (void)fmt; }
 
+#ifndef SCN_REAL_TIMERS
 /* ---- timer model: every cjet_timer the code creates is tracked */
 #define MAXT 6
 struct tmodel { struct cjet_timer *t; int created, destroyed, armed, cancelled; uint64_t ns; };
@@ -71,6 +72,8 @@ void cjet_timer_destroy(struct cjet_timer *t)
 static int timers_alive(void) { int n = 0; for (int i = 0; i < ntm; i++) if (!TM[i].destroyed) n++; return n; }
 /* fire: what timer_read does when the descriptor becomes readable */
 static void tm_fire(struct tmodel *m) { m->armed = 0; m->t->handler(m->t->handler_context, false); }
+
+#endif /* SCN_REAL_TIMERS */
 
 /* ---- recording transport */
 #define MAXLOG 10
